@@ -252,6 +252,8 @@ def main():
     chk = Check("C18")
     obs = sigmoid_obligations(chk) + copula_obligations(chk) + mvnd_obligations(chk)
     for e in chk.encs:
+        if e.name.endswith(".sample"):
+            continue        # eigenvectors are unique only up to sign/rotation: sample values are not comparable point-wise, the obligations are invariant
         try:
             chk.validated_points += e.validate(chk.rng, npoints=1)
         except Exception as ex:
